@@ -3,6 +3,7 @@ import Proofs.Map
 import Gen.PeerConnectedEffects
 import Gen.PeerDisconnectedEffects
 import Gen.NetStepDial
+import Gen.WritePeersEffects
 
 /-!
 GenTie.PeerBookRule — `NetworkManager.handle_peer_connected` / `handle_peer_disconnected`, translated from the current source as
@@ -110,5 +111,13 @@ theorem model_step_peer_as_translated (P : Params) (now : Int) (b : Book) (k : P
   simp only [hd]
   cases h : (k.outgoing && !(b.myAddresses.contains (k.host, k.port)) && isTimeToConnect P d.banScore d.lastAttempt now) <;>
     simp [h]
+
+/-! ### the peers file -/
+
+/-- `write_peers`, from the opening of the temporary file: the list is written into the temporary file, the file is closed,
+and only then renamed over `peers.json` (the order on which `C19.save_atomic` rests) -/
+theorem write_peers_rename_after_close :
+    Gen.write_peers_effects = (["open_new", "dump", "close_new", "rename"], false) := by
+  first | rfl | decide
 
 end GenTie
